@@ -22,7 +22,8 @@ type Peer struct {
 	probeN uint32
 	// stale holds sequence numbers of probes that were never answered while their Probe
 	// call was waiting; a late answer to one of them is not a reaction to a later datagram.
-	stale map[uint32]bool
+	stale   map[uint32]bool
+	staleMu sync.Mutex
 	// RecoveryTS is what the peer sends as its Recovery Time Stamp.
 	RecoveryTS time.Time
 
@@ -239,12 +240,31 @@ func (p *Peer) recvFresh(d time.Duration) (Dgram, error) {
 		if err != nil {
 			return dg, err
 		}
-		if typ, seq, ok := hdrTypeSeq(dg.B); ok && typ == message.MsgTypeHeartbeatResponse && p.stale[seq] {
-			delete(p.stale, seq)
-			continue
+		if typ, seq, ok := hdrTypeSeq(dg.B); ok && typ == message.MsgTypeHeartbeatResponse {
+			p.staleMu.Lock()
+			st := p.stale[seq]
+			if st {
+				delete(p.stale, seq)
+			}
+			p.staleMu.Unlock()
+			if st {
+				continue
+			}
 		}
 		return dg, nil
 	}
+}
+
+// Keepalive sends a Heartbeat Request whose answer is of no interest: it is dropped like the
+// answer to an abandoned probe whenever it arrives.
+func (p *Peer) Keepalive(seq uint32) {
+	p.staleMu.Lock()
+	if p.stale == nil {
+		p.stale = map[uint32]bool{}
+	}
+	p.stale[seq] = true
+	p.staleMu.Unlock()
+	_ = p.Send(message.NewHeartbeatRequest(seq, ie.NewRecoveryTimeStamp(p.RecoveryTS), nil))
 }
 
 // Drain discards everything already queued.
@@ -287,14 +307,18 @@ func (p *Peer) Probe(avoidSeq uint32, budget time.Duration) ProbeResult {
 	var res ProbeResult
 	deadline := time.Now().Add(budget)
 	mine := map[uint32]bool{}
+	p.staleMu.Lock()
 	if p.stale == nil {
 		p.stale = map[uint32]bool{}
 	}
 	delete(p.stale, avoidSeq)
+	p.staleMu.Unlock()
 	defer func() {
+		p.staleMu.Lock()
 		for s := range mine {
 			p.stale[s] = true
 		}
+		p.staleMu.Unlock()
 	}()
 	wait := 100 * time.Millisecond
 	for time.Now().Before(deadline) {
@@ -355,7 +379,9 @@ func (p *Peer) Request(m message.Message, timeout time.Duration) (resp []byte, e
 	if err = p.Send(m); err != nil {
 		return nil, nil, false, err
 	}
+	p.staleMu.Lock()
 	delete(p.stale, m.Sequence())
+	p.staleMu.Unlock()
 	d, err := p.recvFresh(timeout)
 	if err != nil {
 		// no response: still find out whether the agent lives
